@@ -72,6 +72,16 @@ def check_case_preserving(R, F):
     R.floor('case-preserving', 4)
 
 
+def check_pointer_14bit(R, F, rule):
+    """A pointer is written as 0xc000 | p: p must fit in 14 bits or the OR corrupts the two marker bits and the pointer
+    decodes to another offset.  HintPointer::new is the only constructor; it must answer Some only for p <= 16383."""
+    hp = F.fn('message::writer::HintPointer::new')
+    somes = [b for b, bl in enumerate(hp.blocks) for st in bl['stmts'] if st['k'] == 'assign' and st['lhs']['l'] == 0 and st['rv']['k'] == 'agg' and st['rv']['def'].endswith('Option::Some')]
+    g = paths.dom_guards(hp, somes[0]) if len(somes) == 1 else []
+    ok = any(re.match(r'^(Le\(arg1,(16383_usize|constants::POINTER_MAX)\) not in \[0\]|Gt\(arg1,16383_usize\) in \[0\]|Lt\(arg1,16384_usize\) not in \[0\])$', x) for x in g)
+    R.require(ok, rule, hp.gpath + '|14-bit', hp.where(), 'HintPointer::new accepts only offsets <= 16383', 'HintPointer::new returns Some under %s' % g)
+
+
 def check(R, F):
     # ---- (a)
     comp = F.fn(rt.COMPONENTS)
@@ -213,11 +223,7 @@ def check(R, F):
         R.require(all(ok_ for s_, ok_ in srcs), 'pointer-source', '%s|emit-from-%s#%d' % (fn.gpath, '+'.join(names), k), fn.where(b), 'pointer value comes from the %s anchor(s)' % names,
                   'a pointer is emitted with value %s, which is not (only) a stored HintPointer under its Some test, an explicit hint tested against the cursor, or a match of the scan: %s' % (a, srcs))
     R.require(len(emits) >= 3, 'pointer-source', 'message::writer|emission-sites', '', '%d emission sites' % len(emits), 'found %d pointer emission sites, expected the hinted one(s) and the two of the scan' % len(emits))
-    hp = F.fn('message::writer::HintPointer::new')
-    somes = [b for b, bl in enumerate(hp.blocks) for st in bl['stmts'] if st['k'] == 'assign' and st['lhs']['l'] == 0 and st['rv']['k'] == 'agg' and st['rv']['def'].endswith('Option::Some')]
-    g = paths.dom_guards(hp, somes[0]) if len(somes) == 1 else []
-    ok = any(re.match(r'^(Le\(arg1,(16383_usize|constants::POINTER_MAX)\) not in \[0\]|Gt\(arg1,16383_usize\) in \[0\]|Lt\(arg1,16384_usize\) not in \[0\])$', x) for x in g)
-    R.require(ok, 'pointer-source', hp.gpath + '|14-bit', hp.where(), 'HintPointer::new accepts only offsets <= 16383', 'HintPointer::new returns Some under %s' % g)
+    check_pointer_14bit(R, F, 'pointer-source')
     for k, (fn, b, t) in enumerate(news):
         a = paths.show_operand(fn, t['args'][0])
         if a == 'arg1.cursor':
